@@ -511,6 +511,8 @@ func init() {
 		}
 		return isSpaceTerm(e.tf, c)
 	}
+	// insertion sort is stable: the same summary serves sort.SliceStable
+	defer func() { stubs["sort.SliceStable"] = stubs["sort.Slice"] }()
 	stubs["sort.Slice"] = func(e *Exec, fr *Frame, fn *ssa.Function, a []Value) Value {
 		sl, ok := a[0].(IfaceV).V.(SliceV)
 		if !ok {
